@@ -452,6 +452,33 @@ func c09Line(work, line string, yml bool, tag string, lineNo int, r *rng, every,
 				emit(jobj{"k": "mirror-mismatch", "line": lineNo, "zeit": zeit, "what": "root()"})
 				return
 			}
+			// effective Qrez of crop.go:597-603 and the exponentials of the layer loop 604-626 (oracle inputs of RootDistModel)
+			wurmEff := math.Round(float64(pre.WURZMAX) * (pre.WUMAXPF / 11.))
+			if wurmEff > float64(pre.N) {
+				wurmEff = float64(pre.N)
+			}
+			if wurmEff < 1 {
+				wurmEff = 1
+			}
+			qeff := qrez
+			if qeff > .35 {
+				qeff = .35
+			}
+			if qeff < 4.5/(wurmEff*pre.DZ.Num) {
+				qeff = 4.5 / (wurmEff * pre.DZ.Num)
+			}
+			wurzN := g.WURZ
+			if wurzN < 0 {
+				wurzN = 0
+			}
+			rootOK := int(4.5/qeff/pre.DZ.Num) == g.WURZ
+			esHi := make([]float64, wurzN)
+			esLo := make([]float64, wurzN)
+			for i := 1; i <= wurzN; i++ {
+				tiefe := float64(i) * pre.DZ.Num
+				esHi[i-1] = math.Exp(-qeff * tiefe)
+				esLo[i-1] = math.Exp(-qeff * (tiefe - pre.DZ.Num))
+			}
 			tendsum := reflect.ValueOf(shadow).FieldByName("tendsum").Float()
 			maxup := c09Maxup(ct, g.PHYLLO, tendsum)
 			wurz := g.WURZ
@@ -646,6 +673,9 @@ func c09Line(work, line string, yml bool, tag string, lineNo int, r *rng, every,
 				"d_nons": ct == hermes.ZR || ct == hermes.SM, "d_trrel": hx(pre.TRREL), "d_dry": hx(pre.DRYSWELL[k1]), "d_lured": hx(pre.LURED),
 				"d_o_vt": hx(g.VERNTAGE), "d_o_fv": hx(shadow.FV), "d_o_fp": hx(shadow.FP),
 				"d_p": hx(c09RootPow(pre.VELOC, g.PHYLLO+g.SUM[0])), "d_o_pot": hx(g.POTROOTINGDEPTH),
+				// root distribution block (RootDistModel): effective Qrez, exponentials per layer, observed root shares
+				"r_ok": rootOK, "r_pi": hx(math.Pi), "r_hi": hxs(esHi), "r_lo": hxs(esLo), "r_o_wuant": hxs(g.WUANT[:wurzN]),
+				"r_wumalt": hx(pre.WUMAS), "r_wugeh": hx(pre.WUGEH),
 				// reduk
 				"gehob": hx(pre.GEHOB), "gehmin": hx(g.GEHMIN), "ngefkt1": pre.NGEFKT == 1, "earg": hx(eArg), "e": hx(eVal), "reduk0": hx(pre.REDUK), "o_reduk": hx(g.REDUK),
 				// organs
